@@ -128,6 +128,7 @@ pub struct SimOutcome {
 
 #[derive(Clone, Copy, PartialEq, Eq, Debug)]
 enum Status {
+    NotStarted,
     Runnable,
     Blocked,
     Frozen,
@@ -281,7 +282,8 @@ fn wait_for_baton(me: usize) {
 impl State {
     fn new(cfg: SimCfg) -> Self {
         let mut rng = Rng::new(mix(&[cfg.sched_seed, 0x5c4ed]));
-        let n = cfg.nthreads;
+        // worker threads 0..nthreads, then the sequential-prefix thread and the terminal thread
+        let n = cfg.nthreads + 2;
         let mut th = Vec::with_capacity(n);
         // PCT: distinct random priorities
         let mut prios: Vec<i64> = (0..n as i64).map(|i| 1000 + i).collect();
@@ -293,7 +295,7 @@ impl State {
             let mut clock = [0u32; MAXT];
             clock[t] = 1;
             th.push(Th {
-                status: Status::Runnable,
+                status: Status::NotStarted,
                 clock,
                 pending_acq: [0; MAXT],
                 fence_rel: [0; MAXT],
@@ -1079,25 +1081,52 @@ pub fn install() {
 
 pub fn begin_run(cfg: SimCfg) {
     install();
-    assert!(cfg.nthreads <= MAXT);
+    assert!(cfg.nthreads + 2 <= MAXT);
     let _p = alloc::pause();
     SH.abort.store(false, O::SeqCst);
     SH.current.store(NONE, O::SeqCst);
     *lock() = Some(Box::new(State::new(cfg)));
 }
 
-/// Runs `n` virtual threads to completion under the scheduler. `body(tid)` runs on its own OS
-/// thread but only while it holds the baton. Panics inside `body` are caught per thread.
-pub fn run_threads<F>(n: usize, body: F)
+/// Thread id of the sequential prefix ("pre") phase and of the terminal phase of a run.
+pub fn pre_tid(nthreads: usize) -> usize {
+    nthreads
+}
+pub fn term_tid(nthreads: usize) -> usize {
+    nthreads + 1
+}
+
+/// Runs the virtual threads `tids` to completion under the scheduler (one phase of a run; phases
+/// are separated by join/spawn edges). `body(tid)` runs on its own OS thread but only while it
+/// holds the baton. Panics inside `body` are caught per thread.
+pub fn run_phase<F>(tids: &[usize], body: F)
 where
     F: Fn(usize) + Sync,
 {
-    if n == 0 {
+    if tids.is_empty() || aborted() {
         return;
     }
     let body = &body;
+    // spawn edge: everything that finished so far happens-before the new threads
+    {
+        let _p = alloc::pause();
+        let mut g = lock();
+        let st = g.as_mut().expect("run active");
+        let mut joined = [0u32; MAXT];
+        for t in 0..st.th.len() {
+            if st.th[t].status == Status::Finished {
+                let c = st.th[t].clock;
+                vc_join(&mut joined, &c);
+            }
+        }
+        for &t in tids {
+            vc_join(&mut st.th[t].clock, &joined);
+            st.th[t].status = Status::Runnable;
+        }
+        SH.current.store(NONE, O::SeqCst);
+    }
     std::thread::scope(|s| {
-        for t in 0..n {
+        for &t in tids {
             std::thread::Builder::new()
                 .stack_size(256 * 1024)
                 .spawn_scoped(s, move || {
